@@ -366,9 +366,15 @@ def run_layer_t(scratch, reprs=None, jobs=8, keep_dir=None, target=None, ptr_byt
             # structural forwarding obligation for the wrapper methods that stay outside Verus
             # (fold / rfold take generic closures): the body must be exactly `self.inner.<same>(<same args>)`
             fwd = {}
+            uncontracted = []
+            wrapper = {st["canon"] for st in ma["structs"] if any(f_["name"] == "inner" for f_ in st["fields"])}
             for k in entry["not_under_contract"]:
                 m_ = re.match(r"^(Iterator|DoubleEndedIterator|ExactSizeIterator)\[(EIter|ENames)\]::(\w+)$", k)
                 if not m_:
+                    continue
+                if m_.group(2) not in wrapper:
+                    # not a wrapper over a std iterator: a generated method without a contract
+                    uncontracted.append(k)
                     continue
                 f = fns[k]
                 args = [a[0] for a in f["inputs"] if a[0] != "self"]
@@ -377,6 +383,7 @@ def run_layer_t(scratch, reprs=None, jobs=8, keep_dir=None, target=None, ptr_byt
                 want_n = re.sub(r"\s+", " ", want)
                 fwd[k] = {"ok": got.replace("( )", "()") == want_n.replace("( )", "()"), "got": got[:200], "want": want_n}
             entry["forwarding"] = fwd
+            entry["uncontracted_iter_methods"] = uncontracted
             import hashlib
             entry["canon_hashes"] = {k: hashlib.sha1(helper_norm(s.repr + "|" + k + "|" + fns[k]["canon"]).encode()).hexdigest() for k in (res or {}) if k in fns}
             out["modules"][s.mod] = entry
